@@ -157,3 +157,25 @@ package fsm
 //@   ensures[delegate] ok ==> (f.Delegate == lib.FilterOption_MustBe ==> x.Delegate) && (f.Delegate == lib.FilterOption_Exclude ==> !x.Delegate)
 //@   ensures[committee] ok ==> (f.Committee != 0 ==> inCommittees(x.Committees, f.Committee))
 //@   ensures[complete] !ok ==> !((f.Unstaking == lib.FilterOption_MustBe ==> x.UnstakingHeight != 0) && (f.Unstaking == lib.FilterOption_Exclude ==> x.UnstakingHeight == 0) && (f.Paused == lib.FilterOption_MustBe ==> x.MaxPausedHeight != 0) && (f.Paused == lib.FilterOption_Exclude ==> x.MaxPausedHeight == 0) && (f.Delegate == lib.FilterOption_MustBe ==> x.Delegate) && (f.Delegate == lib.FilterOption_Exclude ==> !x.Delegate) && (f.Committee != 0 ==> inCommittees(x.Committees, f.Committee)))
+
+// the committee order: higher stake first; equal stakes are ordered by address (descending), so the
+// comparator answers 0 only for validators with equal stake AND equal address - every node sorts alike
+//@ func (*StateMachine).getValidatorSet$3
+//@   pure
+//@   ensures[stakefirst] (a.StakedAmount > b.StakedAmount ==> result < 0) && (a.StakedAmount < b.StakedAmount ==> result > 0)
+//@   ensures[tiebreak] a.StakedAmount == b.StakedAmount ==> result == bytesCmp(bytes(b.Address), bytes(a.Address))
+//@   ensures[strict] result == 0 ==> a.StakedAmount == b.StakedAmount && bytes(a.Address) == bytes(b.Address)
+
+// only validators that are registered for the chain, not unstaking, not paused and of the requested
+// kind (validator / delegate) are ever handed on to the committee
+//@ func (*StateMachine).getValidatorSet$2
+//@   callsite <dynamic> requires[eligible] v.UnstakingHeight == 0 && v.MaxPausedHeight == 0 && (delegateFilter == lib.FilterOption_MustBe ==> v.Delegate) && (delegateFilter == lib.FilterOption_Exclude ==> !v.Delegate) && (chainId != 0 ==> inCommittees(v.Committees, chainId))
+
+// the committee handed to NewValidatorSet is the first `limit` entries of the sorted, filtered list
+// (all of them when the cap is 0), each with voting power equal to its stake
+//@ func (*StateMachine).getValidatorSet
+//@   callsite NewValidatorSet requires[cap] len(members) == (maxPerCommittee > 0 && maxPerCommittee < len(filtered) ? maxPerCommittee : len(filtered))
+//@   callsite NewValidatorSet requires[power] forall k int :: 0 <= k && k < len(members) ==> members[k].VotingPower == filtered[k].StakedAmount && members[k].PublicKey == filtered[k].PublicKey
+//@   callsite NewValidatorSet requires[wiring] arg0.ValidatorSet == members && (len(arg1) == 1 && arg1[0] == delegate)
+//@   loop 1 invariant[count] 0 <= iter && iter <= limit && len(members) == iter && limit == (maxPerCommittee > 0 && maxPerCommittee < len(filtered) ? maxPerCommittee : len(filtered))
+//@   loop 1 invariant[power] forall k int :: 0 <= k && k < iter ==> alloc(members[k]) && members[k].VotingPower == filtered[k].StakedAmount && members[k].PublicKey == filtered[k].PublicKey
